@@ -131,7 +131,7 @@ def cZ : Cfg ℤ :=
 example : Ctx2 uZ oZ cZ where
   box := by simp [BoxOk, cZ]
   n := by decide
-  xbar_len := by intro x g m; simp [oZ]
+  xbar_len := by intro x g m _; simp [oZ]
   stencil := by intro x f _ p hp; simp [uZ] at hp
   ck_x := by intro ck h; cases h
 
